@@ -491,12 +491,29 @@ def run(ck, F, tier, only=None):
             elif isinstance(val, Poly):
                 total = val + var("msg.value")
             whole = d == ("elems", var("check_messages"))
+            # the same exact sum spelled as a fold: fold(elems(check_messages), init with the input LLR, |acc, m| acc + m.value)
+            fold_sum = False
+            if total is not None and "std::iter::Iterator::sum" not in repr(total):
+                from ..idioms import as_closure
+                fa = []
+                _collect_atoms(total, fa)
+                for a_ in fa:
+                    if atom_fn(a_) != "std::iter::Iterator::fold" or len(a_) != 5:
+                        continue
+                    it_, init_, cl_ = a_[2], a_[3], a_[4]
+                    it_ = it_[1] if isinstance(it_, tuple) and len(it_) == 2 and it_[0] == "iterdesc" else it_
+                    try:
+                        step = e2.apply(as_closure(F, e2, cl_), [var("$acc"), var("$m")])
+                    except Unsupported:
+                        continue
+                    if repr(it_) == repr(("elems", ("P", var("check_messages")))) and "input_llr" in repr(init_) and step == var("$acc") + var("$m.value"):
+                        fold_sum = True
             if is8:
                 CL = ARI + ty + "::clip"
                 val_ok = val == app(CL, total - var("msg.value")) if total is not None else False
                 ret_ok = ret == app(CL, total) if total is not None else False
                 # total = jones(from(deg1(input, degree_one)) + sum(values))
-                sum_ok = total is not None and "std::iter::Iterator::sum" in repr(total) and "input_llr" in repr(total)
+                sum_ok = total is not None and (("std::iter::Iterator::sum" in repr(total) and "input_llr" in repr(total)) or fold_sum)
             else:
                 val_ok = total is not None and val == total - var("msg.value")
                 ret_ok = True
